@@ -4,6 +4,7 @@ import (
 	"fmt"
 	"go/token"
 	"go/types"
+	"sort"
 	"strings"
 
 	"golang.org/x/tools/go/ssa"
@@ -41,12 +42,22 @@ func (env *Env) lookupContract(fn *ssa.Function) (*Contract, *SpecFile) {
 		}
 	}
 	full := fn.String()
-	for _, sf := range env.Specs {
+	for _, k := range env.specKeys() {
+		sf := env.Specs[k]
 		if c, ok := sf.Contracts[full]; ok && c.Extern {
 			return c, sf
 		}
 	}
 	return nil, nil
+}
+
+func (env *Env) specKeys() []string {
+	var ks []string
+	for k := range env.Specs {
+		ks = append(ks, k)
+	}
+	sort.Strings(ks)
+	return ks
 }
 
 func (env *Env) lookupIfaceContract(m *types.Func, recvT types.Type) (*Contract, *SpecFile) {
@@ -58,7 +69,8 @@ func (env *Env) lookupIfaceContract(m *types.Func, recvT types.Type) (*Contract,
 			}
 		}
 	}
-	for _, sf := range env.Specs {
+	for _, k := range env.specKeys() {
+		sf := env.Specs[k]
 		if c, ok := sf.Contracts[full]; ok {
 			return c, sf
 		}
@@ -329,6 +341,7 @@ func (g *FuncGen) applyContract(callee *ssa.Function, ct *Contract, sf *SpecFile
 	}
 	pre := g.st.clone()
 	cxPre := mk(pre, pre)
+	cxPre.callerEntry = g.entry
 	// implicit non-nil pointer receiver
 	if sig.Recv() != nil && len(args) > 0 {
 		if _, ok := ptypes[0].Underlying().(*types.Pointer); ok && !g.isFreshRef(args[0]) && !g.interior[args[0]] {
@@ -681,10 +694,39 @@ func (g *FuncGen) execCopy(c *ssa.CallCommon, v ssa.Value, pos token.Pos) {
 func (g *FuncGen) execRunDefers(x *ssa.RunDefers) {
 	for i := len(g.defers) - 1; i >= 0; i-- {
 		d := g.defers[i]
-		if !d.Block().Dominates(x.Block()) {
-			unsup("conditional defer in %s", g.key)
+		if d.Block().Dominates(x.Block()) {
+			g.execCall(d, &d.Call, nil)
+			continue
 		}
+		// conditional defer: the call runs iff the defer statement was executed
+		for _, l := range g.loops {
+			if l.body[d.Block().Index] {
+				unsup("defer inside a loop in %s", g.key)
+			}
+		}
+		cond, ok := g.reach[d.Block().Index]
+		if !ok {
+			continue // the defer statement is unreachable
+		}
+		before := g.st.clone()
+		saveGuard := g.guard
+		g.guard = and(saveGuard, cond)
 		g.execCall(d, &d.Call, nil)
+		g.guard = saveGuard
+		after := g.st
+		merged := before.clone()
+		keys := map[string]bool{}
+		for k := range after.m {
+			keys[k] = true
+		}
+		for _, k := range sortedKeys(keys) {
+			a := g.get(after, k)
+			b := g.get(before, k)
+			if a != b {
+				merged.m[k] = g.defState(k, fmt.Sprintf("(ite %s %s %s)", cond, a, b))
+			}
+		}
+		g.st = merged
 	}
 }
 
@@ -816,7 +858,7 @@ func (g *FuncGen) execGhost(at string, cx *SpecCtx) {
 			for k, v := range cx.vars {
 				n.vars[k] = v
 			}
-			n.vars[bv.Name] = sval{t: name, kind: "int"}
+			n.vars[bv.Name] = sval{t: name, kind: "int", bound: true}
 			var ax []string
 			n.axioms = &ax
 			g.sc.Quant++
